@@ -17,6 +17,7 @@
 package log
 
 import (
+	"bytes"
 	"sort"
 	"sync/atomic"
 
@@ -305,6 +306,9 @@ func (c *AsyncLogger) Append(e *Event) {
 // Write enqueues raw bytes into the buffer.
 // Behavior on full buffer depends on BufferFullPolicy.
 func (c *AsyncLogger) Write(b []byte) {
+	// The worker reads the bytes later; the caller may reuse b as soon as
+	// Write returns (io.Writer contract), so the buffer gets its own copy.
+	b = bytes.Clone(b)
 	select {
 	case c.buf <- b:
 	default:
